@@ -380,6 +380,43 @@ def run(ctx):
         viol += sviol
         evaluations += sevals
 
+        # ---------------------------------------------------------------- credentials of the client
+        # a valid, world-readable segment owned by the daemon's account, opened by clients whose real and
+        # effective user ids differ in every way (a set-uid tool, a service that dropped privileges)
+        cred_stats = {}
+        if os.geteuid() == 0:
+            cd = os.path.join(d0, "creds")
+            os.makedirs(cd, exist_ok=True)
+            os.chmod(d0, 0o755)
+            os.chmod(cd, 0o755)
+            seg = os.path.join(cd, "shm")
+            shutil.copy(os.path.join(d0, "trunc-72"), seg)
+            os.chown(seg, 12345, 12345)
+            os.chmod(seg, 0o644)
+            tool = os.path.join(cd, "clientsim")
+            shutil.copy(csim, tool)
+            os.chmod(tool, 0o755)
+            lst = os.path.join(cd, "list.txt")
+            with open(lst, "w") as f:
+                f.write(seg + "\n")
+            os.chmod(lst, 0o644)
+            for ruid, euid in ((0, 0), (12345, 12345), (12345, 23456), (23456, 12345), (23456, 23456), (0, 12345), (12345, 0)):
+                def drop(r=ruid, e=euid):
+                    os.setgroups([])
+                    os.setresgid(65534, 65534, 65534)
+                    os.setresuid(r, e, e)
+                try:
+                    pc = subprocess.run([tool, "openlist", "--list", lst], stdout=subprocess.PIPE, stderr=subprocess.PIPE, text=True, timeout=60, preexec_fn=drop, cwd=cd, env={"PATH": "/usr/bin:/bin"})
+                    got = pc.stdout.strip().splitlines()[-1] if pc.stdout.strip() else "no answer (exit %d: %s)" % (pc.returncode, pc.stderr[-100:])
+                except Exception as e:  # noqa
+                    got = "could not run: %s" % e
+                evaluations += 1
+                cred_stats["ruid%d-euid%d" % (ruid, euid)] = got
+                if got.startswith("could not run") or got.startswith("no answer"):
+                    continue
+                if got != "OPENED || OPENED":
+                    viol.append({"sig": "open-depends-on-client-credentials", "detail": "a valid, published, world-readable segment owned by uid 12345, opened by a client with real uid %d and effective uid %d: %s" % (ruid, euid, got), "replay": ""})
+
         # ---------------------------------------------------------------- repair
         rviol, repair_stats, revals, rsamples = repair_phase(ctx, csim, files, magic, dirs)
         viol += rviol
@@ -401,6 +438,7 @@ def run(ctx):
         "open_outcome_matrix": matrix,
         "repair": repair_stats,
         "repeated_opens": stress,
+        "client_credentials": cred_stats,
         "exhaustive_over": "truncation lengths 0..80",
     }
     # threads and forked children in a C client (own contexts, handed-over contexts, inherited contexts)
